@@ -108,7 +108,12 @@ fn run_job(ctx: &mut Context, job: &Value) -> Value {
     }
     let mut it = TokenIterator::new(q.trim()).peekable();
     let query = parse_query(&mut it);
+    let before = chrono::Local::now();
     let reply = rink_core::eval(ctx, &q);
+    // C15, the clock: rink_core::eval sets ctx.now at its start; no query may move it anywhere else
+    // (5 s of slack for a stepping system clock)
+    let slack = chrono::Duration::seconds(5);
+    let clock_ok = before - slack <= ctx.now && ctx.now <= chrono::Local::now() + slack;
     let slim = job["slim"].as_bool().unwrap_or(false);
     let mut out = if slim {
         let o = reply_obs(&reply);
@@ -125,6 +130,7 @@ fn run_job(ctx: &mut Context, job: &Value) -> Value {
         json!({"q": text(&q), "ast": query_json(&query), "obs": reply_obs(&reply)})
     };
     if slim || job["st"].as_bool().unwrap_or(false) {
+        out["clock_ok"] = json!(clock_ok);
         out["ans_d"] = match &ctx.previous_result {
             Some(prev) => json!(rv_harness::session::digest(&rv_harness::obs::number_json(prev).to_string())),
             None => Value::Null,
